@@ -83,8 +83,16 @@ fn small_params(r: &mut Rng) -> Params {
 
 /// shared shape of the update histories (C01 style): (params, alphabet, kd, vd, steps, name)
 fn update_variant(g: &mut Gen, thorough: bool, long_ok: bool) -> (Params, usize, KeyDist, ValDist, usize, &'static str) {
-    let variant = g.rng.weighted(&[35, 30, 25, if long_ok { 10 } else { 0 }]);
+    let variant = g.rng.weighted(&[32, 28, 22, if long_ok { 10 } else { 0 }, 8]);
     match variant {
+        4 => {
+            // churn on the large free list, incl. slots of 128 KiB and more
+            let mut p = pick_params(&mut g.rng, false);
+            if g.rng.chance(1, 2) {
+                p.buckets = pick_small_buckets(&mut g.rng);
+            }
+            (p, g.rng.range(2, 8) as usize, KeyDist::Short, ValDist::LargeChurn, g.rng.range(8, 60) as usize, "large-churn")
+        }
         0 => {
             let p = small_params(&mut g.rng);
             (p, g.rng.range(1, 8) as usize, KeyDist::Boundary, ValDist::Boundary, g.rng.range(10, 120) as usize, "tiny")
@@ -110,7 +118,9 @@ pub fn c01(seed: u64, tier: Tier) -> Vec<Episode> {
     let kt = ktype_pick(&mut g.rng);
     let (params, alphabet, kd, vd, steps, name) = update_variant(&mut g, thorough, true);
     let maps = single_map(&mut g.rng, kt, params);
-    let cfg = HistCfg { maps: maps.clone(), alphabet, kd, vd, steps, w: Weights::basic(), one_bucket: false, reopen_params: false, xproc_every: 0, bulk_max: 0 };
+    let mut w = Weights::basic();
+    w.empty_out = *g.rng.pick(&[0u32, 0, 1]);
+    let cfg = HistCfg { maps: maps.clone(), alphabet, kd, vd, steps, w, one_bucket: false, reopen_params: false, xproc_every: 0, bulk_max: 0 };
     let st = history(&mut g, &cfg);
     let checks = Checks { model: true, audit_every: 64, panics: true, ..Default::default() };
     let mut ep = base_episode("C01", name, seed, maps, st, checks);
@@ -132,8 +142,26 @@ pub fn c02(seed: u64, tier: Tier) -> Vec<Episode> {
     w.handles = 6;
     w.iter_steps = 3;
     w.traverse = 2;
+    w.empty_out = *g.rng.pick(&[0u32, 1, 3]);
     let cfg = HistCfg { maps: maps.clone(), alphabet, kd, vd, steps, w, one_bucket: false, reopen_params: true, xproc_every: if thorough { 1 } else { 8 }, bulk_max: 0 };
-    let mut st = history(&mut g, &cfg);
+    let mut st = Vec::new();
+    if g.rng.chance(1, 6) {
+        // a few very long keys push the key file past 128 KiB early in the history
+        for _ in 0..g.rng.range(3, 5) {
+            let tag = g.next_tag();
+            let v = g.value_of_len(3);
+            st.push(Step::Put { h: 0, k: if kt.is_int() { Key::U(tag) } else { Key::G { len: 50_000 + (tag % 9000) as u32, tag } }, v, mode: KeyMode::Ref });
+        }
+        if g.rng.chance(1, 2) {
+            // ... and are deleted again in insertion order
+            let ks: Vec<Key> = st.iter().filter_map(|s| if let Step::Put { k, .. } = s { Some(k.clone()) } else { None }).collect();
+            for k in ks {
+                st.push(Step::Del { h: 0, k, mode: KeyMode::Ref });
+            }
+            st.push(Step::Reopen { params: None, xproc: false });
+        }
+    }
+    st.extend(history(&mut g, &cfg));
     st.push(Step::Reopen { params: Some(maps.iter().map(|_| pick_params(&mut g.rng, false)).collect()), xproc: g.rng.chance(1, 8) || thorough });
     let checks = Checks { model: true, audit_traverse: true, decode_on_close: true, reopen_must_succeed: true, iter: true, ..Default::default() };
     let mut ep = base_episode("C02", name, seed, maps, st, checks);
@@ -258,6 +286,7 @@ pub fn c05(seed: u64, tier: Tier) -> Vec<Episode> {
     w.sync = 2;
     w.reopen = 1;
     w.bulk = 3;
+    w.empty_out = *g.rng.pick(&[0u32, 0, 1]);
     let cfg = HistCfg { maps: maps.clone(), alphabet, kd, vd, steps, w, one_bucket: g.rng.chance(1, 5), reopen_params: false, xproc_every: 0, bulk_max: 8 };
     let st = history(&mut g, &cfg);
     let checks = Checks { decode_every: *g.rng.pick(&[1u32, 4, 16]), decode_on_close: true, crash_points: true, ..Default::default() };
@@ -280,7 +309,8 @@ pub fn c06(seed: u64, tier: Tier) -> Vec<Episode> {
         // a fixed update cycle repeated many times: returns to the same logical contents
         let nk = g.rng.range(2, 8) as usize;
         let keys = g.alphabet(kt, nk, KeyDist::Boundary, None);
-        let lens: Vec<usize> = (0..6).map(|_| g.val_len(ValDist::Mixed)).collect();
+        let lvd = *g.rng.pick(&[ValDist::Mixed, ValDist::Mixed, ValDist::LargeChurn]);
+        let lens: Vec<usize> = (0..6).map(|_| g.val_len(lvd)).collect();
         let mut cycle: Vec<(usize, Option<usize>)> = Vec::new();
         for _ in 0..g.rng.range(4, 14) {
             let ki = g.rng.below(keys.len() as u64) as usize;
@@ -316,7 +346,9 @@ pub fn c06(seed: u64, tier: Tier) -> Vec<Episode> {
         w.stats = 3;
         w.bulk = 2;
         w.reopen = 1;
-        let cfg = HistCfg { maps: maps.clone(), alphabet: g.rng.range(2, 20) as usize, kd: KeyDist::Boundary, vd: ValDist::Mixed, steps: g.rng.range(10, 200) as usize, w, one_bucket: false, reopen_params: false, xproc_every: 0, bulk_max: 5 };
+        w.empty_out = *g.rng.pick(&[0u32, 0, 1]);
+        let vd = *g.rng.pick(&[ValDist::Mixed, ValDist::Mixed, ValDist::LargeChurn]);
+        let cfg = HistCfg { maps: maps.clone(), alphabet: g.rng.range(2, 20) as usize, kd: KeyDist::Boundary, vd, steps: g.rng.range(10, if vd == ValDist::LargeChurn { 60 } else { 200 }) as usize, w, one_bucket: false, reopen_params: false, xproc_every: 0, bulk_max: 5 };
         st = history(&mut g, &cfg);
         st.push(Step::Stats { h: 0 });
     }
@@ -895,6 +927,7 @@ pub fn c15(seed: u64, tier: Tier) -> Vec<Episode> {
     w.put = 40;
     w.del = 25;
     w.get = 2;
+    w.empty_out = *g.rng.pick(&[0u32, 0, 1]);
     let cfg = HistCfg { maps: maps.clone(), alphabet: g.rng.range(1, 60) as usize, kd: KeyDist::Mixed, vd: ValDist::Mixed, steps: g.rng.range(0, 120) as usize, w, one_bucket: false, reopen_params: false, xproc_every: 0, bulk_max: 0 };
     let mut st = history(&mut g, &cfg);
     let live: Vec<Key> = {
@@ -1042,7 +1075,9 @@ pub fn c17(seed: u64, tier: Tier) -> Vec<Episode> {
     w.del = 28;
     w.stats = 8;
     w.reopen = 1;
-    let cfg = HistCfg { maps: maps.clone(), alphabet, kd, vd: ValDist::Mixed, steps, w, one_bucket: g.rng.chance(1, 6), reopen_params: false, xproc_every: 0, bulk_max: 0 };
+    w.empty_out = *g.rng.pick(&[0u32, 0, 1]);
+    let vd17 = *g.rng.pick(&[ValDist::Mixed, ValDist::Mixed, ValDist::Mixed, ValDist::LargeChurn]);
+    let cfg = HistCfg { maps: maps.clone(), alphabet, kd, vd: vd17, steps: if vd17 == ValDist::LargeChurn { steps.min(60) } else { steps }, w, one_bucket: g.rng.chance(1, 6), reopen_params: false, xproc_every: 0, bulk_max: 0 };
     let mut st = history(&mut g, &cfg);
     st.push(Step::Stats { h: 0 });
     let checks = Checks { stats: true, ..Default::default() };
